@@ -25,9 +25,13 @@ class Files(staticfiles.BaseFiles[WSGIApp]):
         if_none_match: str,
         if_modified_since: str,
     ) -> Response:
-        if self.if_none_match(
-            FileResponse.generate_etag(stat_result), if_none_match
-        ) or self.if_modified_since(stat_result.st_ctime, if_modified_since):
+        # A recipient MUST ignore If-Modified-Since if the request contains an
+        # If-None-Match header field (RFC 7232, section 3.3).
+        if (
+            self.if_none_match(FileResponse.generate_etag(stat_result), if_none_match)
+            if if_none_match
+            else self.if_modified_since(stat_result.st_ctime, if_modified_since)
+        ):
             response = Response(304)
         else:
             response = FileResponse(filepath, stat_result=stat_result)
